@@ -166,6 +166,13 @@ def nested_and_merge():
               ({"f": "a*", "g": "*b"}, {"f": "c", "g": "d"}, {"h": "e"}),
               ({"f": "a", "g": 1}, {"f": "c", "g": ">=2"}, {"f": "c"}),
               ({"f": "a", "not(g)": "b"}, {"f": "c", "g": "d"}, {"g": "d"})]
+    # merges one level down (D29 as first found: the merged block is shaken again)
+    deep_docs = [{"f": {"g": [{"k": "a"}, {"k": "b"}]}}, {"f": {"g": [{"k": "ab"}]}}, {"f": {"g": {"h": "z"}}}, {"f": [{"g": [{"k": "a"}, {"k": "b"}]}]}, {}]
+    out.append(({"A": [{"f": {"g": {"all(k)": ["*a*", "?b"]}}}, {"f": {"g": {"h": "z"}}}], "condition": "A"}, deep_docs))
+    out.append(({"A": {"f": {"g": {"all(k)": ["*a*", "?b"]}}}, "B": {"f": {"g": {"h": "z"}}}, "C": {"w": "d"}, "condition": "A or B or C"}, deep_docs))
+    out.append(({"A": {"f": {"g": {"all(k)": [{"p": "a"}, {"q": "b"}]}}}, "B": {"f": {"g": {"z": "c"}}}, "C": {"w": "d"}, "condition": "A or B or C"},
+                [{"f": {"g": [{"k": {"p": "a"}}, {"k": {"q": "b"}}]}}, {"f": {"g": {"k": [{"p": "a"}, {"q": "b"}]}}}, {"f": {"g": {"z": "c"}}}, {}]))
+    out.append(({"A": {"f": {"g": {"k": "a", "j": "b"}}}, "B": {"f": {"g": {"k": "c"}}}, "C": {"f": {"g": {"all(k)": ["*a*", "?b"]}}}, "condition": "A and B and C"}, deep_docs))
     for b in blocks:
         ids = {"A": {"n": b[0]}, "B": {"n": b[1]}, "C": {"n": b[2]}, "E": {"h": "e"}}
         for cond in ("A and B", "A and B and C", "A and B and E", "not (A and B)", "A and B or C", "(A and B) or E", "all(A) and B", "A and not B",
